@@ -217,6 +217,8 @@ def extra_checks(pid, tier, seed):
         return _percall_failures(pid, tier, seed)
     if pid == "C09":
         return _constructor_rejections()
+    if pid == "C15":
+        return _negative_sizes()
     if pid != "C11":
         return []
     import asyncio
@@ -308,6 +310,38 @@ def extra_checks(pid, tier, seed):
         asyncio.run(go())
         if fails:
             break
+    return fails
+
+
+def _negative_sizes():
+    """C15, values the label domain does not contain (the model's sizes are naturals or inf): every
+    negative number - also a fraction between -1 and 0, and -inf - is rejected with ValueError and
+    changes nothing."""
+    import math
+    import lockstep
+    lockstep._init_worker()
+    from asyncio_taskpool.pool import SimpleTaskPool, TaskPool
+    fails = []
+
+    async def co():
+        return None
+    for mk in (lambda: TaskPool(pool_size=3), lambda: SimpleTaskPool(co, pool_size=3), lambda: TaskPool()):
+        pool = mk()
+        before = (pool.pool_size, pool.is_full, pool.is_locked, pool.num_running)
+        for v in (-1, -3, -0.5, -0.25, -1e-9, -1.0, -2.5, -math.inf):
+            try:
+                pool.pool_size = v
+                fails.append({"what": f"pool_size = {v!r} was accepted", "pool": str(pool),
+                              "pool_size_now": repr(pool.pool_size)})
+            except ValueError:
+                pass
+            except Exception as e:     # noqa: BLE001
+                fails.append({"what": f"pool_size = {v!r} raised {type(e).__name__}, not ValueError"})
+            after = (pool.pool_size, pool.is_full, pool.is_locked, pool.num_running)
+            if after != before:
+                fails.append({"what": f"a rejected pool_size = {v!r} changed the pool",
+                              "before": repr(before), "after": repr(after)})
+                break
     return fails
 
 
